@@ -163,6 +163,10 @@ func checkC16(c Node) Verdict {
 		if len(out.Rows) != 1 || !Equal(out.Rows[0], map[string]any{"q": "it's $1", "v": arg1}) {
 			return fail("echo", desc, sig, "%q returns %s", got, Canon(any(out.Rows)))
 		}
+	case 9:
+		if len(out.Rows) != 1 || !Equal(out.Rows[0], map[string]any{"dir\\": float64(7), "lit": "` $1", "v": arg1}) {
+			return fail("echo", desc, sig, "%q returns %s", got, Canon(any(out.Rows)))
+		}
 	case 7, 8:
 		if len(out.Rows) != 1 || !Equal(out.Rows[0], map[string]any{"a": arg1}) {
 			return fail("echo", desc, sig, "%q returns %s", got, Canon(any(out.Rows)))
